@@ -423,7 +423,11 @@ impl Write for SimWriter {
                 k = 1 + self.rng.below(k - 1);
             }
             if let Some(l) = self.limit {
-                let room = l.saturating_sub(self.accepted.len().max(self.pos as usize) as u64);
+                // bytes that overwrite what the sink already holds need no new room (a full disk still rewrites
+                // allocated blocks); only growth is limited
+                let end = self.accepted.len() as u64;
+                let inside = end.saturating_sub(self.pos);
+                let room = inside.saturating_add(l.saturating_sub(end.max(self.pos)));
                 if room == 0 {
                     if !self.stats.fired.contains(&"enospc") {
                         self.stats.fired.push("enospc");
